@@ -36,7 +36,8 @@ REACH = ['elftools.common.construct_utils:ULEB128._parse',
          'elftools.common.utils:parse_cstring_from_stream',
          'elftools.common.utils:struct_parse',
          'elftools.dwarf.structs:_InitialLengthAdapter._decode',
-         'elftools.common.construct_utils:RepeatUntilExcluding._parse']
+         'elftools.common.construct_utils:RepeatUntilExcluding._parse',
+         'elftools.common.utils:read_blob']
 
 _L = {}
 
@@ -287,6 +288,19 @@ def run_case(kind, idx, rng, sh):
                 cut = rng.randrange(len(pre) + n)
                 expect(sh, form + '-trunc', parse(sh, ds.Dwarf_dw_form[form], data[:cut]), ('parse_error',),
                        (form, 'trunc', cut < len(pre)))
+            # read_blob: the block reader of the expression parser (length already decoded by the caller)
+            m = rng.choice([0, 1, 2, 63, 64, 65, 300])
+            blob = bytes(rng.randrange(256) for _ in range(m))
+            for data, want in ((blob + b'\x07', ('ok', list(blob), m)), (blob, ('ok', list(blob), m))) + \
+                    (((blob[:rng.randrange(m)], ('parse_error',)),) if m else ()):
+                st = TracedBytesIO(data)
+                try:
+                    got = ('ok', list(L['utils'].read_blob(st, m)), io.BytesIO.tell(st))
+                except L['PE']:
+                    got = ('parse_error',)
+                except Exception as e:      # any other exception type is a wrong report of truncation
+                    got = ('err', type(e).__name__)
+                expect(sh, 'read_blob' + ('-trunc' if want[0] != 'ok' else ''), got, want, ('read_blob', min(m, 66), len(data) - m))
             # data16 and flag_present
             raw = bytes(rng.randrange(256) for _ in range(16))
             got = parse(sh, ds.Dwarf_dw_form['DW_FORM_data16'], raw + b'\1')
